@@ -200,7 +200,7 @@ pub fn entity_counts(ops: &[Op]) -> (u32, u32) {
                     nu = nu.max(u2 + 1);
                 }
             }
-            Op::Mine { txs } => txs.iter().for_each(|t| see_tx(t, &mut nd)),
+            Op::Mine { txs } | Op::Precious { txs } => txs.iter().for_each(|t| see_tx(t, &mut nd)),
             Op::Reorg { branch, .. } => branch.iter().flatten().for_each(|t| see_tx(t, &mut nd)),
             Op::Evict(t) | Op::PolicyInvalid(t) | Op::ForceVerdict { tx: t, .. } => see_tx(t, &mut nd),
             _ => {}
@@ -1343,6 +1343,14 @@ impl<'a> Run<'a> {
                 let bh = self.node.lock().side_block_hash();
                 BEST_OVERRIDE.with(|c| c.set(Some(bh)));
             }
+            Op::Precious { txs } => {
+                let resolved: Vec<Transaction> = txs.iter().map(|t| self.tx_of(t)).collect();
+                let mut st = self.node.lock();
+                let floor = self.hist.cfg.start_height.saturating_sub(105).max(1);
+                if st.height() > floor + 1 {
+                    st.precious_sibling(resolved);
+                }
+            }
             Op::NodeDown => {
                 let mut st = self.node.lock();
                 st.faults.down = true;
@@ -1357,6 +1365,11 @@ impl<'a> Run<'a> {
                 let mut st = self.node.lock();
                 st.fall_behind(*k);
                 st.faults.down = false;
+            }
+            Op::NodeUpThenDownAtBs { calls } => {
+                let mut st = self.node.lock();
+                st.faults.down = false;
+                st.faults.down_at_bs = Some(st.bs_count + *calls as u64);
             }
             Op::NodeUpThenDownAfter { rpcs } => {
                 let mut st = self.node.lock();
@@ -1775,6 +1788,22 @@ impl<'a> Run<'a> {
                         None => break,
                     }
                 }
+                let download_failed = node.fired.get("F3_block_fetch_fault").copied().unwrap_or(0)
+                    + node.fired.get("F1_outage_blocksource").copied().unwrap_or(0)
+                    > 0;
+                if !skipped.is_empty() && !download_failed && persisted.is_some() {
+                    // Judged whether or not the skipped block holds anything: the tower resumed from a block its listeners
+                    // never saw although every download had succeeded.
+                    self.model.probe("restart_on_never_processed_block_no_download_failure");
+                    vs.push(viol(
+                        "C03",
+                        "restart_on_block_never_processed_without_download_failure",
+                        format!(
+                            "tower restarted at {start_tip}, a block it was never shown (processed tip: {done} at height {}), although no block download had failed",
+                            self.model.h
+                        ),
+                    ));
+                }
                 if !skipped.is_empty() {
                     self.model.probe("restart_ahead_of_processed_tip");
                     let mut relevant = None;
@@ -1806,8 +1835,12 @@ impl<'a> Run<'a> {
                     if let Some((k, h)) = relevant {
                         vs.push(viol(
                             "C03",
-                            if persisted.is_some() {
+                            if persisted.is_some() && download_failed {
                                 "restart_skips_blocks_persisted_tip_ahead_of_processed"
+                            } else if persisted.is_some() {
+                                // No block download has failed in this run: the mechanism of the open finding (target tip
+                                // persisted although the listeners stopped half-way) cannot be the cause.
+                                "restart_on_block_never_processed_without_download_failure"
                             } else {
                                 "restart_skips_blocks_no_persisted_tip"
                             },
